@@ -72,7 +72,14 @@ class CompoundGammaDirichletPrior(CallableModel):
         )
 
     def _sample_shape(self) -> torch.Size:
-        return self.tree_model.sample_shape
+        return max(
+            self.tree_model.sample_shape,
+            self.alpha.shape[:-1],
+            self.c.shape[:-1],
+            self.shape.shape[:-1],
+            self.rate.shape[:-1],
+            key=len,
+        )
 
     def handle_parameter_changed(self, variable, index, event) -> None:
         pass
